@@ -37,6 +37,21 @@ pub mod verif {
         /// The thread function returns at the fault point.
         pub const MODE_RETURN: u32 = 2;
 
+        static NOTIFY_DELAY_MS: AtomicU32 = AtomicU32::new(0);
+
+        /// Hold a dying thread for `ms` milliseconds between its death notice and the closing of its mailbox.
+        pub fn set_notify_delay(ms: u32) {
+            NOTIFY_DELAY_MS.store(ms, Ordering::SeqCst);
+        }
+
+        /// Called by a thread context right after it has notified the main thread that it is going away.
+        pub fn after_notify() {
+            let ms = NOTIFY_DELAY_MS.load(Ordering::SeqCst);
+            if ms > 0 {
+                std::thread::sleep(std::time::Duration::from_millis(ms as u64));
+            }
+        }
+
         static SITE: AtomicU32 = AtomicU32::new(0);
         static NTH: AtomicU32 = AtomicU32::new(0);
         static MODE: AtomicU32 = AtomicU32::new(0);
